@@ -377,8 +377,8 @@ theorem K_handleLogon {c : Ctx} (hc : CtxOK c) {s : Sess} (hk : K c s) {m : OutM
       exact ⟨h2.K hk, fun r hr => by simp only [Option.some.injEq, LogonErr.rej.injEq] at hr; exact Or.inl ⟨_, _, hr.symm⟩⟩
     · simp only [hlow, if_false]
       have h3 : SExt s (logonReply s2 (toIn c.pcfg m) false) := h2.trans (sext_logonReply s2 _)
-      rw [logonTail_off _ _ (by rw [hcfg2]; exact hc.nx), pf_flag hc hw]
-      obtain ⟨k1, k2⟩ := K_logonFinish hc hk hw ha hk4 h3 (by omega) s2.store.sender
+      rw [logonTail_off _ _ _ (by rw [hcfg2]; exact hc.nx), pf_flag hc hw]
+      obtain ⟨k1, k2⟩ := K_logonFinish hc hk hw ha hk4 h3 (by omega) s.store.sender
       exact ⟨k1, fun r hr => Or.inr (k2 r hr)⟩
 
 end Qfx.Link
